@@ -93,7 +93,9 @@ StringDictionaryRPFC::StringDictionaryRPFC(IteratorDictString *it,
     {
       // Extracting the internal strings for Re-Pair compression
 
-      while ((ptrpdict + (size_t)(bucketsize * maxlength)) > reservedInts)
+      // (per internal string: its bytes, the VByte in front and the two-symbol
+      // end mark)
+      while ((ptrpdict + (size_t)(bucketsize * (maxlength + 3))) > reservedInts)
         reservedInts = Reallocate(&rpdict, reservedInts);
 
       // Stores the last position with 0 to avoid confusions with 0 values
